@@ -9,16 +9,24 @@ import (
 	zz "gitlab.com/gomidi/midi/v2/internal/zzverif"
 )
 
-// charReader hands out the stream; the last byte may arrive together with io.EOF.
+// charReader hands out the stream; the last byte may arrive together with io.EOF, and any of the first eight
+// calls may report that nothing happened (0 bytes, nil error), as io.Reader allows.
 type charReader struct {
 	data      []byte
 	pos       int
 	eofWith   bool
 	maxPerGet int
+	hesitate  uint8 // bit i set: call i returns (0, nil)
+	calls     int
 }
 
 func (r *charReader) Read(p []byte) (int, error) {
 	if len(p) == 0 {
+		return 0, nil
+	}
+	call := r.calls
+	r.calls++
+	if call < 8 && r.hesitate&(1<<uint(call)) != 0 {
 		return 0, nil
 	}
 	if r.pos >= len(r.data) {
@@ -65,7 +73,7 @@ func VerifC19Seq() {
 		recs = append(recs, rec{ts, payload})
 		stream = append(stream, c19line(ts, payload)...)
 	}
-	rd := &charReader{data: stream, eofWith: zz.Choice("eof-with-last-byte", 2) == 1}
+	rd := &charReader{data: stream, eofWith: zz.Choice("eof-with-last-byte", 2) == 1, hesitate: zz.U8("calls-that-return-nothing") & (uint8(1)<<uint(zz.Param("hesitbits")) - 1)}
 	for _, want := range recs {
 		out, ts, err := ReadAndConvert(rd)
 		zz.Assert(err == nil, "seq:record-decodes")
